@@ -134,6 +134,11 @@ func Catalogue() []Prog {
 	add("file-vhtml-attrs", F, `<div id="a" class="b" v-html="html"></div><p a="1" b="2" c="3" d="4" v-text="title"></p><section a="1" b="2" c="3" d="4" e="5" v-html="html"></section><article a="1" b="2" c="3" d="4" e="5" f="6" v-text="user.name"></article><aside a="1" b="2" c="3" d="4" e="5" f="6" g="7" h="8" v-html="title"></aside><h4 a="1" b="2" c="3" d="4" e="5" f="6" g="7" h="8" i="9" j="10" v-text="title"></h4>`, nil, nil, false)
 	add("include-attrs", F, `<template include="@D/c.vuego" a="1" :b="title"></template><template include="@D/c.vuego" a="1" b="2" c="3" d="4" :e="user.name"></template>`, map[string]string{"c.vuego": `<i>{{ a }}{{ b }}{{ e }}</i>`}, nil, false)
 	add("less-style", F, `<style type="text/css+less">@c: red; @pad: 4px; .card { color: @c; .title { padding: @pad * 2; &:hover { color: darken(@c, 10%); } } }</style><div class="card"><p class="title">{{ title }}</p></div>`, nil, nil, false)
+	// pages whose LESS defines or looks up the same names with different bodies: what one page compiles must not reach another
+	add("less-mixin-a", F, "<div class=\"a\">{{ title }}</div><style type=\"text/css+less\">\n.rounded {\n  border-radius: 4px;\n}\n.box {\n  .rounded();\n  color: red;\n}\n</style>", nil, nil, false)
+	add("less-mixin-b", F, "<div class=\"b\">{{ title }}</div><style type=\"text/css+less\">\n.rounded {\n  border-radius: 9px;\n}\n.card {\n  .rounded();\n}\n</style>", nil, nil, false)
+	add("less-extend-c", F, "<p>{{ title }}</p><style type=\"text/css+less\">\n.message {\n  color: blue;\n}\n.success {\n  &:extend(.message);\n  color: green;\n}\n</style>", nil, nil, false)
+	add("less-extend-d", F, "<p>{{ title }}</p><style type=\"text/css+less\">\n.message {\n  color: black;\n}\n@w: 3px;\n.w { width: @w; }\n</style>", nil, nil, false)
 	add("less-in-component", F, `<template include="@D/c.vuego"></template><template include="@D/c.vuego"></template>`, map[string]string{"c.vuego": `<style v-once type="text/css+less">@w: 10px; .c { width: @w + 5; }</style><i class="c">{{ n }}</i>`}, nil, false)
 	add("include", F, `<main><template include="@D/c.vuego" :lk_prop="n" label="L {{ title }}"></template><template include="@D/c.vuego" :lk_prop="f" label="second"></template></main>`,
 		map[string]string{"c.vuego": "---\nlk_fm: fm-value\n---\n<section><h2>{{ label }}</h2><p>{{ lk_prop }} {{ lk_fm }} {{ title }}</p></section>"}, nil, false)
